@@ -349,7 +349,7 @@ def run_c18(rep: Report, tier: str) -> None:
                 fields = ["x"] + fields
             elif nm["mut"] == "extra2":
                 fields = ["x", "y"] + fields
-            fname = "-".join(fields) + (".zip" if nm["mut"] == "ext" else ".whl")
+            fname = "-".join(fields) + (".zip" if nm["mut"] == "ext" else rng.choice([".WHL", ".Whl"]) if nm["mut"] == "extcase" else ".whl")
             n += 1
             ctx = {"name": fname, "model": nm, "spec": st["out"]}
             site = f"wheel({'build' if nm['build'] else 'nobuild'},{nm['mut']})"
@@ -386,6 +386,14 @@ def run_c18(rep: Report, tier: str) -> None:
             else:
                 if exc != "InvalidWheelFilename":
                     rep.violation(f"C18:{site}:accepts-or-wrong-exception", f"{fname}: expected InvalidWheelFilename, got {exc or got}", ctx)
+                # the same name through the public entry point
+                try:
+                    wc = EnvSpec.from_spec(">=3.9", "linux", "cpython").wheel_compatibility(fname)
+                    rep.violation(f"C18:{site}:wheel_compatibility-accepts-malformed", f"{fname}: wheel_compatibility() returned {wc}", ctx)
+                except InvalidWheelFilename:
+                    pass
+                except Exception as e:  # noqa: BLE001
+                    rep.violation(f"C18:{site}:wheel_compatibility-wrong-exception-{type(e).__name__}", f"{fname}: {e!r}", ctx)
         if len(rep.cov["samples"]) < 3 and rng.random() < 0.01:
             rep.sample(ctx)
     # ---- platform names (PlatformTags.NamesRoundTrip is the MC part)
